@@ -16,7 +16,11 @@ Enc == EncodeSorted(SortedB, P)
 RoundTrip == Decode(Enc, N, P, M) = <<"ok", SortedB>>
 \* every other byte string of that length (exhaustive for short encodings) is refused or is another set
 AllBytes(k) == [1..k -> 0..255]
-OneEncoding == Len(Enc) <= 2 => \A other \in AllBytes(Len(Enc)) : other # Enc => Decode(other, N, P, M) # <<"ok", SortedB>>
+OneEncoding == /\ Len(Enc) <= 1 => \A other \in AllBytes(Len(Enc)) : other # Enc => Decode(other, N, P, M) # <<"ok", SortedB>>
+               \* longer encodings: every single-bit flip
+               /\ \A k \in 1..Len(Enc) : \A b \in 0..7 :
+                    LET bit == 2 ^ b  flipped == [Enc EXCEPT ![k] = IF (Enc[k] \div bit) % 2 = 1 THEN Enc[k] - bit ELSE Enc[k] + bit]
+                    IN Decode(flipped, N, P, M) # <<"ok", SortedB>>
 NoSlack == /\ Decode(Enc \o <<0>>, N, P, M) = <<"refused">>
            /\ (Len(Enc) > 0 => Decode(SubSeq(Enc, 1, Len(Enc) - 1), N, P, M) # <<"ok", SortedB>>)
 =============================================================================
